@@ -152,4 +152,25 @@ def run_all ():
   g = CFG(f)
   pv = q.provenance(g, _node(g, 'self.b[r] = 1'), 'r')
   expect('provenance through copy', sorted(k for d, k, v in pv) == ['assign', 'for'])
+  # R-DIM: positions and sizes (pxa/dims.py) - the in-place walk that compares a position with the declared length must be reported,
+  # the walk to an end position must not
+  from . import dims
+  bad_dim = _fn("def unpack(self, raw, offset=0):\n  offset, length = self._unpack_header(raw, offset)\n  offset, packed = _read(raw, offset, length - 12)\n  pos = offset - len(packed)\n"
+                "  while pos < length:\n    pos = part.unpack(raw, pos, length - pos)\n  return offset, length\n")
+  r = dims.analyse(bad_dim)
+  expect('dims bad (position < size, size - position)', r is not None and len(r) >= 2)
+  good_dim = _fn("def unpack(self, raw, offset=0):\n  start = offset\n  offset, length = self._unpack_header(raw, offset)\n  end = start + length\n"
+                 "  while offset < end:\n    offset = part.unpack(raw, offset, end - offset)\n  return offset, length\n")
+  expect('dims good (walk to an end position)', dims.analyse(good_dim) == [])
+  expect('dims n/a (no offset parameter)', dims.analyse(_fn("def f(a, b):\n  return a < b\n")) is None)
+  # local copies of attribute chains put back
+  fn = _fn("def h(self, event):\n  in_port = event.port\n  packet = event.parsed\n  self.m[packet.src] = in_port\n")
+  done = q.inline_attr_copies(fn, set(['self', 'event']), keep=('packet',))
+  expect('inline_attr_copies', done == ['in_port'] and 'event.port' in ast.unparse(fn) and 'packet = event.parsed' in ast.unparse(fn))
+  fn = _fn("def h(self, event):\n  p = event.port\n  p = 3\n  use(p)\n")
+  expect('inline_attr_copies leaves re-bound locals alone', q.inline_attr_copies(fn, set(['event'])) == [])
+  fn = _fn("def c(adj, s1, s2):\n  for s1 in S:\n    row = adj[s1]\n    if s2 not in row: continue\n    row[s2] = 1\n")
+  expect('inline_container_aliases', q.inline_container_aliases(fn, 'adj') == ['row'] and 'adj[s1][s2] = 1' in ast.unparse(fn))
+  fn = _fn("def c(adj, s1):\n  v = adj[s1]\n  adj[s1] = 0\n  use(v)\n")
+  expect('inline_container_aliases leaves values alone', q.inline_container_aliases(fn, 'adj') == [])
   return bad
